@@ -306,6 +306,17 @@ def lifter_ops(w):
             out.append(('op', op, (a, b, ('id', 'c%d' % w, w))))
         for op in ('<<<c_rez', '<<<c_cf', '>>>c_rez', '>>>c_cf'):
             out.append(('op', op, (a, b, c)))
+        # the operators the evaluator accepts with operands of different widths (the lifter's shift / rotate counts are cl or an immediate,
+        # the carry operand of rcl/rcr may be wider than one bit): the result has the width of the FIRST operand
+        for w2 in (8, 32):
+            if w2 == w: continue
+            n = ('id', 'n%d' % w2, w2)
+            for op in ('<<', '>>', 'a>>', '<<<', '>>>'):
+                out.append(('op', op, (a, n)))
+            for op in ('<<<c_rez', '<<<c_cf', '>>>c_rez', '>>>c_cf'):
+                out.append(('op', op, (a, b, ('int', w2, 0))))      # the carry as a wider constant 0 / 1 (flags are assigned 32-bit constants by the lifter)
+                out.append(('op', op, (a, b, ('int', w2, 1))))
+                out.append(('op', op, (a, n, c)))
         out.append(('op', 'bsf', (a,)))
         out.append(('op', 'bsr', (a,)))
         out.append(('op', 'bsf', (b, a)))
